@@ -16,6 +16,24 @@ META = {
 TYPE = 'object::Type'
 
 
+def _self_types(F, p):
+    """the types `self` can still have at the end of path p, from every tag test the path took (match arms, `tag == Type::X`,
+    tuple-of-tags matches)"""
+    from rules.c05 import _tag_atoms
+    from rules.unsafe_inv import same
+    poss = {n for n, _ in F.enum_variants(TYPE)}
+    S = ('obj', 'param*', 1)
+    for o_, ty, tv in _tag_atoms(p, p.env):
+        if same(o_, S) or o_ == ('obj', 'param', 1):
+            if isinstance(ty, tuple):
+                poss &= set(ty[1])
+            elif tv:
+                poss &= {ty}
+            else:
+                poss -= {ty}
+    return poss
+
+
 def run(ctx, rep):
     F = ctx.facts()
     rep.rule('R06.1', 'integer arithmetic is checked: no raw/trapping machine operation on user integers, an Err edge for the failure case')
@@ -55,8 +73,8 @@ def run(ctx, rep):
     pc = F.fn('<object::Object as core::cmp::PartialOrd>::partial_cmp')
     seen_int = False
     for p in AbsInt(F, pc, max_paths=5000).run():
-        vs = [c[1] for c in p.constraints if c[0][0] == 'variant' and c[0][2] == TYPE]
-        if 'Int' not in vs[:1] and not any(v_ and 'Int' in str(v_) for v_ in vs[:1]):
+        st_ = _self_types(F, p)
+        if 'Int' not in st_ or len(st_) == len(F.enum_variants(TYPE)):
             continue
         if p.exit != 'return':
             continue
@@ -98,8 +116,7 @@ def run(ctx, rep):
     # NaN above everything, which is not what `<` means on floats
     seen_f = False
     for p in AbsInt(F, pc, max_paths=5000).run():
-        vs = [c[1] for c in p.constraints if c[0][0] == 'variant' and c[0][2] == TYPE]
-        if not any(v_ and str(v_) == 'Float' for v_ in vs[:1]):
+        if _self_types(F, p) != {'Float'}:
             continue
         if p.exit != 'return':
             continue
@@ -184,8 +201,7 @@ def run(ctx, rep):
     # strings ordered by str
     okstr = False
     for p in AbsInt(F, pc, max_paths=5000).run():
-        vs = [c[1] for c in p.constraints if c[0][0] == 'variant' and c[0][2] == TYPE]
-        if vs[:1] == ['String'] and p.exit == 'return':
+        if p.exit == 'return' and _self_types(F, p) == {'String'}:
             r = deref(p.env, p.env.get('_0'))
             if r and r[0] != 'call':
                 r = next((x for x in subtrees(r) if x[0] == 'call' and x[1].endswith(('::cmp', '::partial_cmp')) and len(x[2]) == 2), r)
